@@ -1262,7 +1262,42 @@ struct Engine {
     if (NZ) simple_mutate(Z[0], NP + NQ, "Z0");
   }
 
-  // move-assign from an amc::vector into a SmallVector is not offered by the library (only construction); nothing to do here.
+  // sv = std::move(amc_vector): offered through the converting constructor (a temporary SmallVector adopts the buffer, then move assignment);
+  // every state of the destination meets every state of the donor, in particular a donor that owns no buffer
+  void op_assign_from_z(int ai) {
+    if (!NZ) return;
+    Slot<Vec> &a = P[ai];
+    Slot<VecZ> &z = Z[0];
+    OpInfo oi;
+    oi.operands = bitP(ai) | bitZ();
+    oi.exempt = bitP(ai) | bitZ();
+    oi.primary = ai;
+    oi.point = 0;
+    set_op("operator=(vector&&)", st(a) + "|" + st(z), z.prev.cap == 0 ? "donor-without-buffer" : z.model.empty() ? "donor-empty-with-buffer" : "donor-with-elements",
+           fmt("P%d = move(Z0) size=%zu cap=%ju", ai, z.model.size(), z.prev.cap));
+    const bool adopts = z.prev.cap != 0;
+    threw = false;
+    assign_from_z(a, z);
+    if (threw) { violation("C01", "model.unexpected_exception", fmt("assignment from an amc::vector threw %s", threw_what.c_str())); return; }
+    a.model = z.model;
+    z.model.clear();
+    if (adopts) a.entitled = false;
+    ent_size_rule(a);
+    verify(oi, false);
+    // a moved-from vector is valid but unspecified: bring the donor to a known state
+    OpInfo oc;
+    oc.operands = bitZ();
+    oc.exempt = bitZ();
+    set_op("partner:clear-after-move", st(z), "-", "Z0");
+    window([&] { z.obj->clear(); });
+    verify(oc, false);
+  }
+  template <class Z_ = VecZ>
+  typename std::enable_if<!std::is_same<Z_, Vec>::value>::type assign_from_z(Slot<Vec> &a, Slot<VecZ> &z) {
+    window([&] { *a.obj = std::move(*z.obj); });
+  }
+  template <class Z_ = VecZ>
+  typename std::enable_if<std::is_same<Z_, Vec>::value>::type assign_from_z(Slot<Vec> &, Slot<VecZ> &) {}
 
   // ------------------------------------------------------------------ C14: relocation by raw byte copy
   template <class V>
@@ -1326,6 +1361,7 @@ struct Engine {
       else if (r < 84) reconstruct(ai);
       else if (r < (swap2_heavy ? 97u : 91u)) op_swap2(ai);
       else if (r < 97) { int qi = rng.below(NQ); simple_mutate(Q[qi], NP + qi, "Q"); }
+      else if (NZ && rng.chance(1, 3)) op_assign_from_z(ai);
       else op_z();
     }
     if (g_cut) {
